@@ -338,6 +338,17 @@ package badger
 //@   ensures[layout] le32(result, 0) == p.Fid && le32(result, 4) == p.Len && le32(result, 8) == p.Offset
 //@   assigns nothing
 
+// Value pointers are ordered by file, then offset, then length.
+//@ func (valuePointer).Less
+//@   props C20
+//@   ensures[lexicographic] result <==> (p.Fid < o.Fid || (p.Fid == o.Fid && (p.Offset < o.Offset || (p.Offset == o.Offset && p.Len < o.Len))))
+//@   assigns nothing
+
+//@ func (valuePointer).IsZero
+//@   props C20
+//@   ensures result <==> (p.Fid == 0 && p.Offset == 0 && p.Len == 0)
+//@   assigns nothing
+
 //@ func (*valuePointer).Decode
 //@   props C20 C06
 //@   requires p != nil && len(b) >= 12
